@@ -5,7 +5,48 @@ import json, os, subprocess
 ROOT = os.path.dirname(os.path.dirname(os.path.abspath(__file__)))
 
 # id -> (technique, category, level text, level note, design ref, engine)
+REF = "Trusted: refz80 after calibration on zexall (67/67) and the real-hardware CRCs of z80test 1.0 (z80full, z80memptr, z80ccf) run on the reference alone; harness trace bus. "
 CHECKS = {
+    "C01": (
+        "property-based differential testing (proptest) against an independently written, hardware-calibrated reference Z80; metamorphic relations on the implementation alone",
+        "exploration",
+        "Every generated CPU state is applied to all 1792 encodings and executed on rustzx-z80 and on the reference; ordered memory/port accesses with data, every register incl. alternates/I/R/IFF/IM/MEMPTR and whole memory are compared, and the Q latch is exposed by a SCF/CCF probe; instruction sequences carry state across 2..64 instructions. DD/FD-before-non-HL and undefined-ED-as-NOP are also checked without the reference. Sampling of the state space with exhaustive coverage of encodings.",
+        REF + "Not judged: MEMPTR after repeating INxR/OTxR, Q right after a repeating block iteration.",
+        "DESIGN.md sections 3 and 5 (C01)",
+        "E1 reference Z80 + trace bus",
+    ),
+    "C02": (
+        "property-based differential testing (proptest) of generated programs x INT/NMI schedules against the reference Z80",
+        "exploration",
+        "Generated flag-independent programs with EI/DI/HALT/IM/RETN/RETI/prefix chains run in lock-step on implementation and reference under generated INT pulse schedules and NMI edges; acceptance decision at every boundary, pushed return address, vector reads, new PC, IFF1/IFF2, HALT release and RETN/RETI IFF copy are compared.",
+        REF + "INT/NMI are scheduled over the memory-cycle index (independent of T-state accounting). Not judged: NMI directly after EI/DI/prefix, NMI edge latched during an interrupt entry, HALT refetch address.",
+        "DESIGN.md sections 3 and 5 (C02)",
+        "E1 reference Z80 + trace bus",
+    ),
+    "C03": (
+        "property-based differential testing (proptest): timing skeleton of every encoding x timing variant against the reference Z80's bus-cycle breakdown",
+        "exploration",
+        "For generated states biased to select every timing variant, all 1792 encodings are executed on both models and the ordered (kind, clocks, address) skeleton including every single delay T-state and the T total is compared; interrupt entry (IM 0/1/2, NMI) and HALT refetch totals and memory cycles likewise. Coverage of 17 named variants and 5 entry kinds is asserted (a generator hole is exit 2).",
+        REF + "The reference breakdown follows the published Spectrum contention tables and has its own documented-T-state self-check.",
+        "DESIGN.md sections 3 and 5 (C03)",
+        "E1 reference Z80 + trace bus",
+    ),
+    "C06": (
+        "property-based testing (proptest) of port-write/memory-access histories against a reference memory map executed by the emulated CPU",
+        "exploration",
+        "Histories of paging writes (all values, before and after lock, near-miss ports) and reads/writes at window-edge-biased addresses are executed instruction by instruction on the emulator; every read, then all 65536 addresses, every RAM bank and the paging state are compared with a 40-line reference memory map, with embedded and host-supplied ROM images.",
+        "Trusted: the reference memory map written from the property text; RAM/paging hooks. Even paging-class addresses (also ULA) are not generated.",
+        "DESIGN.md section 5 (C06)",
+        "E2 memory model + emulator lock-step",
+    ),
+    "C17": (
+        "property-based testing (proptest) of input event histories against a set model, read back through emulated IN instructions",
+        "exploration",
+        "After every event of a generated press/release/move history the emulated CPU reads all 8 half-rows, generated multi-row selectors, the Kempston port and the three mouse ports; values are compared with a per-source set model (matrix, compound keys with shared CAPS SHIFT, Sinclair mapping from the property text, Kempston OR, active-low buttons, 4-bit wheel, X += dx, Y -= dy).",
+        "Trusted: keyboard matrix/compound/Sinclair tables written from hardware documentation. Known finding: Sinclair joystick 2 'down' (excluded by construction while its probe reproduces it).",
+        "DESIGN.md section 5 (C17)",
+        "E2 emulator lock-step",
+    ),
     "C20": (
         "property-based testing (proptest): recording-backend schedule oracle + chunking metamorphic relation + writer/loader round trip",
         "exploration",
